@@ -5,6 +5,11 @@ sys.path.insert(0, os.path.dirname(os.path.abspath(__file__)))
 from argcommon import *
 
 
+def join_words(r, words):
+    """one file line: the words escaped with backslashes (as the C07 families do), joined by single blanks"""
+    return " ".join("".join(("\\" + ch) if ch in " \\'\"" else ch for ch in w) for w in words)
+
+
 def run(tier):
     c = Check("C09", tier)
     # ---- M: all interleavings of the modelled steps; design instance must hold, shared-cell instance must fail
@@ -46,11 +51,37 @@ def run(tier):
                     if a["kind"] == "mapsi" and a["sep"] == 44:
                         a["sep"] = 59                       # ',' is the pair separator of key-value containers: refused as list separator
             acts = []
-            for _ in range(6):
+            # every fourth thread (the second one of each batch first) reads a part of each command line from an argument file
+            # of its own (addArgumentFile(): the handler is in its file-reading mode meanwhile, in which - for THIS handler
+            # only - repeated uses do not count for the cardinality); the other threads keep judging cardinalities
+            filethread = t % 4 == 1
+            if filethread:
+                cfg = None
+                while cfg is None or not any(arggen.is_cont(a["kind"]) for a in cfg["args"]):
+                    cfg = g.cfg(constraints=False, allow_pos=False, kinds=["flag", "int", "str", "dbl", "vecint", "vecstr", "listint"])
+                for a in cfg["args"]:
+                    a["mand"] = False
+                    if arggen.is_cont(a["kind"]):
+                        a["card"] = {"t": "dflt", "a": 0, "b": 0}
+                        a["multi"] = False
+                        a["sep"] = ord(",;:+/|"[(t + len(a["l"])) % 6])
+                fa = arggen.new_arg("flag"); fa["kind"] = "argfile"; fa["vm"] = "req"; fa["init"] = False
+                fa["s"] = next(ord(ch) for ch in "FPAY" if ord(ch) not in {a["s"] for a in cfg["args"]}); fa["l"] = T("argfile")
+                cfg["args"].append(fa)
+            for n_ in range(6):
                 line = gen_valid(g, cfg)
                 if line is None:
                     continue
-                acts.append(eval_action(g.spell_line(cfg, line), tag={"k": "line", "line": line_json(line)}))
+                if filethread and line:
+                    cut = g.r.randint(1, len(line))
+                    ftext, k = "", 0
+                    while k < cut:
+                        m = g.r.randint(1, cut - k)
+                        ftext += join_words(g.r, g.spell_line(cfg, line[k:k + m])) + "\n"
+                        k += m
+                    fname = "thr%d_%d_%d.pa" % (idx, t, n_)
+                    acts.append(eval_action([g.r.choice(["-" + chr(fa["s"]), "--argfile"]), fname] + g.spell_line(cfg, line[cut:]),
+                                            files=[{"name": T(fname), "text": T(ftext)}], tag={"k": "argfile-thread"}))
                 for kind, words in arggen.mutations(g, cfg, line)[:3]:
                     acts.append(eval_action(words, tag={"k": "mut", "m": kind}))
             blocks.append((cfg, acts))
